@@ -14,7 +14,7 @@ import StraxModel.Model.Rechunk
   * `close` always sets `writing_ended`, and records `exception` iff it runs while an exception
     propagates (the `finally` of `save_from`);
   * the metadata json is written with `sort_keys=True`: a `subruns` dict comes back ordered by
-    run id, and the `Chunk` constructor then re-sorts it (stably) by start;
+    run id, and the `Chunk` constructor then re-sorts it (stably) by (start, end);
   * loader: `n == 0` ⇒ no file is opened; missing `filename` ⇒ KeyError; missing file ⇒
     FileNotFoundError (an OSError); `len(data) != n` ⇒ DataCorrupted; `run_id` None ⇒ AttributeError
     (`Other`); super-run id without subruns ⇒ ValueError; then `Chunk.__init__` (`mkChunk`) with
@@ -278,7 +278,7 @@ def lawAbidingB (cs : List Chunk) : Bool :=
   sortedByTimeB (cs.flatMap (·.rows))
 
 /-- a `subruns` annotation that survives json (ordered by id) + the `Chunk` setter (stable sort by
-start, overlap check) unchanged -/
+(start, end), overlap check) unchanged -/
 def restorableRuns : Option Runs → Bool
   | none => true
   | some s => (sortRuns (jsonRuns s) == s) && !runsOverlap s
@@ -289,12 +289,14 @@ def storableB (rid : String) (c : Chunk) : Bool :=
   decide (0 ≤ c.start) && decide (c.start ≤ c.stop) && rowsInside c.start c.stop c.rows &&
   (c.runId == some rid) && restorableRuns c.subruns && (!rid.startsWith "_" || c.subruns.isSome)
 
-/-- sub-run spans as strax produces them: each of positive length, in time order, not overlapping
-(empty spans are popped by `_pop_out_empty_run_id`); ids in any order -/
+/-- sub-run spans in time order, not overlapping, no two with the same (start, end); zero-length
+spans are allowed (a zero-duration chunk of a sub-run) since the D31 fix orders annotations by
+(start, end); ids in any order -/
 def spansOkB : Runs → Bool
   | [] => true
-  | [a] => decide (a.start < a.stop)
-  | a :: b :: rest => decide (a.start < a.stop) && decide (a.stop ≤ b.start) && spansOkB (b :: rest)
+  | [a] => decide (a.start ≤ a.stop)
+  | a :: b :: rest =>
+    decide (a.start ≤ a.stop) && decide (a.stop ≤ b.start) && decide (a.start < b.stop) && spansOkB (b :: rest)
 
 /-- a valid chunk of (super-)run `rid` carrying a sub-run annotation as strax produces them -/
 def annotatedOkB (rid : String) (c : Chunk) : Bool :=
